@@ -447,6 +447,49 @@ def t3_overflow_policy(ctx: Ctx):
 
 
 # ----------------------------------------------------------------------
+# T4 UnfoldNegZero's refusal predicate
+
+def t4_sign_survives(ctx: Ctx):
+    """`round(x)` under a format with -0 is rewritten to `copysign(round'(x), x)` under the same format without it.  That
+    is the same function exactly when every zero the original produces carries the operand's sign.  The routes to a
+    zero that does not: a wrapping overflow, and a NaN or an infinity that the format replaces by a zero (taken when the
+    special itself is not enabled).  The predicate is evaluated, from its source, on every combination of class,
+    overflow mode, the two enable flags and the two substitutes, and compared with that route table."""
+    from ..minipy import Interp, Obj
+    fn = ctx.fn(NEGZERO, '_sign_survives')
+    mod = ctx.repo.module(NEGZERO)
+    funcs = {s.name: s for s in mod.tree.body if isinstance(s, ast.FunctionDef)}
+    is_a = lambda k, c: k == c or (k in ('MPBFixedContext',) and c in ('MPFixedContext', '_FixedCtx')) or (k == 'MPFixedContext' and c == '_FixedCtx')  # noqa: E731
+    subs = {
+        'none': None,
+        'zero': Obj('Float', is_nar=lambda: False, is_zero=lambda: True, isnan=False, isinf=False),
+        'nonzero': Obj('Float', is_nar=lambda: False, is_zero=lambda: False, isnan=False, isinf=False),
+        'nan': Obj('Float', is_nar=lambda: True, is_zero=lambda: False, isnan=True, isinf=False),
+    }
+    n = 0
+    bad = None
+    for kind, overflows in (('MPFixedContext', (None,)), ('MPBFixedContext', ('WRAP', 'SATURATE', 'OVERFLOW'))):
+        for ov in overflows:
+            for en_nan in (True, False):
+                for en_inf in (True, False):
+                    for kn, vn in subs.items():
+                        for ki, vi in subs.items():
+                            c = Obj(kind, enable_nan=en_nan, enable_inf=en_inf, nan_value=vn, inf_value=vi,
+                                    overflow=('enum', 'OverflowMode', ov) if ov else None)
+                            got = Interp(funcs, is_a=is_a).call_function(fn, [c])
+                            want = not (ov == 'WRAP' or (not en_nan and kn == 'zero') or (not en_inf and ki == 'zero'))
+                            n += 1
+                            if got and not want and bad is None:       # refusing more than needed is safe
+                                bad = (f'{kind}(overflow={ov}, enable_nan={en_nan}, nan_value={kn}, enable_inf={en_inf}, inf_value={ki}): the predicate offers the rewrite, '
+                                       f'but a zero of foreign sign is reachable')
+    ctx.check(bad is None, NEGZERO, fn, '_sign_survives', f'the rewrite is offered only where no zero of foreign sign is reachable ({n} format configurations)',
+              (bad or '') + ' -- copysign hands that zero the sign of the NaN / infinity / wrapped operand')
+    # the predicate gates the rewrite
+    users = [(q, k) for q, f in ctx.repo.functions(NEGZERO) for k in calls_in(f) if call_name(k) == '_sign_survives']
+    ctx.check(len(users) >= 1, NEGZERO, fn, '_sign_survives', 'the predicate is consulted by the rewriter', 'no caller')
+
+
+# ----------------------------------------------------------------------
 # F3 rebuilt formats / contexts carry every parameter over under its own name
 
 def f3_rebuild_parameters(ctx: Ctx):
@@ -459,6 +502,7 @@ def f3_rebuild_parameters(ctx: Ctx):
 
 RULES = [
     Rule('C10.T3', 'float-to-fixed: the overflow policy is accepted only when both overflow probes show it', t3_overflow_policy, 1, 'T'),
+    Rule('C10.T4', 'negative-zero unfolding is refused exactly where a zero of foreign sign is reachable (wrap, or a zero substituted for a disabled NaN / infinity)', t4_sign_survives, 2, 'T'),
     Rule('C10.F3', 'a rebuilt format / context receives every carried-over parameter under its own name (no swapped or shifted arguments)', f3_rebuild_parameters, 30, 'F'),
     Rule('C10.P2', 'an analysis handed to a lowering rewriter along with a function is the analysis of that function', analysis_pairing((T + 'float_to_fixed.py', T + 'unfold_overflow.py', T + 'unfold_special.py', T + 'unfold_neg_zero.py', T + 'round_elim.py', T + 'round_insert.py', T + 'rescale_fixed.py'), 10), 10, 'P'),
     Rule('C10.T1', 'overflow unfolding: emitter and verifier use the same (operand, comparator, threshold) pairs; strict for maxval, non-strict for infval', t1_threshold_pairing, 13, 'T,F'),
@@ -473,6 +517,13 @@ RULES = [
 from ..selftest import Mutant  # noqa: E402
 
 MUTANTS = [
+    Mutant('zero-substitutes-ignored-when-a-special-is-on', NEGZERO, "    subs = (\n        ([] if ctx.enable_nan else [ctx.nan_value])\n        + ([] if ctx.enable_inf else [ctx.inf_value])\n    )",
+           "    if ctx.enable_nan or ctx.enable_inf:\n        return True\n    subs = (ctx.nan_value, ctx.inf_value)", 'C10.T4', 'seeded change C10c'),
+    Mutant('zero-substitutes-consulted-when-enabled', NEGZERO, "    subs = (\n        ([] if ctx.enable_nan else [ctx.nan_value])\n        + ([] if ctx.enable_inf else [ctx.inf_value])\n    )",
+           "    subs = (ctx.nan_value, ctx.inf_value)", 'C10.T4', 'refuses more than needed, which the property allows', expect='silent'),
+    Mutant('wrap-not-refused', NEGZERO, "    if isinstance(ctx, MPBFixedContext) and ctx.overflow is OverflowMode.WRAP:\n        return False", "    if isinstance(ctx, MPBFixedContext) and ctx.overflow is OverflowMode.SATURATE:\n        return False", 'C10.T4'),
+    Mutant('sign-survives-respelled', NEGZERO, "    return not any(v is not None and not v.is_nar() and v.is_zero() for v in subs)", "    for v in subs:\n        if v is not None and not v.is_nar() and v.is_zero():\n            return False\n    return True", 'C10.T4',
+           'the same table', expect='silent'),
     Mutant('overflow-sites-classified-on-another-function', T + 'unfold_overflow.py', "        class_info = ValueClassInfer.analyze(func)\n        return _UnfoldOverflowInstance(func, eval_info, class_info).list_sites(within)",
            "        class_info = ValueClassInfer.analyze(func)\n        return _UnfoldOverflowInstance(Simplify.apply(func), eval_info, class_info).list_sites(within)", 'C10.P2'),
     Mutant('saturation-read-off-one-probe', F2F, "        if pos.as_real() == maxval and neg.as_real() == neg_maxval:", "        if pos.as_real() == maxval:", 'C10.T3', 'seeded change C10b'),
